@@ -132,6 +132,33 @@ func (l *Lowerer) call(ce *ast.CallExpr) ([]*Term, []types.Type) {
 				cnt := l.heapVar(chanSentVar(cht), "Int")
 				return []*Term{Select(cnt, ch)}, []types.Type{types.Typ[types.UntypedInt]}
 			}
+		case "lockinv":
+			// lockinv(x.lockField, label): the named clause of the monitor invariant of that lock, for object x
+			if l.spec && len(ce.Args) == 2 {
+				sel, ok := ast.Unparen(ce.Args[0]).(*ast.SelectorExpr)
+				lab, ok2 := ce.Args[1].(*ast.Ident)
+				if !ok || !ok2 {
+					panic("lockinv expects (x.lockField, label)")
+				}
+				ref, rt := l.tr(sel.X)
+				key := l.p.prefixOfType(rt) + namedOf(rt) + "." + sel.Sel.Name
+				for _, li := range l.p.lockInvs[key] {
+					if li.C.Label != lab.Name {
+						continue
+					}
+					l.pushEnv(map[string]envEntry{li.Self: {ref, rt}})
+					t, _ := l.tr(li.C.Expr)
+					l.popEnv()
+					return []*Term{t}, []types.Type{types.Typ[types.Bool]}
+				}
+				panic("lockinv: no clause " + lab.Name + " for " + key)
+			}
+		case "acquired":
+			// acquired(): the function has acquired a lock so far (acq(...) is meaningful)
+			if l.spec && len(ce.Args) == 0 {
+				l.f.declare("$acquired", "Bool")
+				return []*Term{V("$acquired", "Bool")}, []types.Type{types.Typ[types.Bool]}
+			}
 		case "lockheld":
 			if l.spec {
 				sel, ok := ast.Unparen(ce.Args[0]).(*ast.SelectorExpr)
@@ -1989,6 +2016,9 @@ func (l *Lowerer) externalCall(callee *types.Func, recv *Term, recvTyp types.Typ
 		l.lockOp(recv, true, ce)
 		return nil
 	case "(*sync.Mutex).Unlock", "(*sync.RWMutex).Unlock", "(*sync.RWMutex).RUnlock":
+		if callee.Name() == "Unlock" {
+			l.lockInvariant(recv, false, ce)
+		}
 		l.lockOp(recv, false, ce)
 		return nil
 	case "sort.Sort", "sort.Strings", "sort.Ints", "sort.Slice", "sort.SliceStable", "sort.Stable":
